@@ -7,7 +7,7 @@
 #define T_HAS_CLEAR 1
 #define T_HAS_UPDTTL 1
 using C = cappuccino::utlru_cache<uint64_t, VAL_T, cappuccino::thread_safe::TS>;
-#define DECL_C(c) C c(std::chrono::milliseconds{cfg_ttl}, HCAP)
+#define DECL_C(c) C c(std::chrono::milliseconds{cfg_ttl}, HCAP, cfg_mlf)
 #else
 #include <cappuccino/tlru_cache.hpp>
 #define T_NAME "tlru"
@@ -15,7 +15,7 @@ using C = cappuccino::utlru_cache<uint64_t, VAL_T, cappuccino::thread_safe::TS>;
 #define T_HAS_CLEAR 0
 #define T_HAS_UPDTTL 0
 using C = cappuccino::tlru_cache<uint64_t, VAL_T, cappuccino::thread_safe::TS>;
-#define DECL_C(c) C c(HCAP)
+#define DECL_C(c) C c(HCAP, cfg_mlf)
 #endif
 #define T_POLICY P_LRU
 #define T_PEEK 1
